@@ -177,47 +177,9 @@ def mutate_one_field(rng, coll: Obj, g: G):
     return None, None
 
 
-def run(chk: common.Check):
-    tier = chk.tier
-    t = gen_tables.gen_c13()
-    res = common.lean_prove(PROP_MODULES, tier)
-    trusted = [
-        "Lean 4 kernel; axioms propext, Quot.sound, Classical.choice only (audited per theorem on this run)",
-        "hand-written model lean/MwVerif/Model/Metabook.lean of loads/dumps/object_hook/MetabookObject.__init__/_json, tied to /repo by correspondence",
-        "translator: class defaults and the type-name mapping by introspection (Gen/MetabookTables.lean, regenerated on this run)",
-        "Python's json text codec, sha256 (collision freedom) and repr() are outside the model",
-        "harness/c13.py (generator, oracles)",
-    ]
-    chk.proof_coverage(res, trusted)
-    rng = chk.rng
-    g = G(rng, t)
-    kcode = lambda k: t["keys"].index(k)
-    vcode = lambda v: t["vals"].index(v)
-    drv = Driver("c13")
-    n = 20000 if tier == "thorough" else 3000
-    hist = Counter()
-    reqs, exps, texts = [], [], []
-    viol, diffs = [], []
-    for i in range(n):
-        v = g.collection() if i % 3 == 0 else g.any_value()
-        text = to_text(v, rng)
-        try:
-            out = reser(text)
-        except Exception as e:  # noqa: BLE001
-            hist["reser-exception:" + type(e).__name__] += 1
-            viol.append({"why": f"loads/dumps raised {type(e).__name__}: {e}", "text": text})
-            continue
-        hist["top:" + (type(v).__name__)] += 1
-        # fixed point
-        out2 = reser(out)
-        if out2 != out:
-            viol.append({"why": "re-serialising is not a fixed point", "text": text, "first": out, "second": out2})
-        reqs.append("norm " + to_tokens(v, kcode, vcode))
-        exps.append(to_tokens(json.loads(out), kcode, vcode))
-        texts.append(text)
-    for r, e, tx, o in zip(reqs, exps, texts, drv.ask(reqs)):
-        if o.split() != e.split():
-            diffs.append({"text": tx, "model": o, "impl": e})
+def object_roundtrips(hist):
+    """-> violations of the object-level dumps/loads round trip, over every kind of metabook object."""
+    viol = []
     # metabook objects themselves: every kind of object a metabook is made of comes back as that kind, with the same attributes
     # (the wire format names the class: {"type": "<ClassName>", ...}) - alone, and as the wikis/licenses/items of a collection
     import inspect
@@ -266,6 +228,75 @@ def run(chk: common.Check):
                 text, w = repr(o), f"dumps/loads of a {k.__name__} raised {type(e).__name__}: {e}"
             if w:
                 viol.append({"why": "a metabook object does not survive dumps/loads: " + w, "text": text})
+    return viol
+
+
+def replay(chk, data):
+    """a recorded violation: the object-level round trips, and for a recorded text the fixed point and the identifier checks."""
+    viol = object_roundtrips(Counter())
+    text = data.get("text")
+    if isinstance(text, str) and text.lstrip()[:1] in "{[":
+        try:
+            out = reser(text)
+            if reser(out) != out:
+                viol.append({"why": "re-serialising is not a fixed point", "text": text})
+            if "variant" in data and coll_id(data["variant"]) != coll_id(text):
+                viol.append({"why": "collection id differs between the recorded text and its variant", "text": text, "variant": data["variant"]})
+            if "other" in data and coll_id(data["other"]) == coll_id(text):
+                viol.append({"why": "collection id equal although the recorded metabooks differ", "text": text, "other": data["other"]})
+        except Exception as e:  # noqa: BLE001
+            viol.append({"why": f"loads/dumps raised {type(e).__name__}: {e}", "text": text})
+    for v in viol[:2]:
+        chk.violation("C13 violated: " + v["why"], {"kind": "impl-oracle", **v}, sig={"why": v["why"][:30]})
+    if not viol:
+        print("replay: the recorded metabook round-trips and keeps its identifier")
+
+
+def run(chk: common.Check):
+    if chk.replay:
+        replay(chk, json.load(open(chk.replay)))
+        return
+    tier = chk.tier
+    t = gen_tables.gen_c13()
+    res = common.lean_prove(PROP_MODULES, tier)
+    trusted = [
+        "Lean 4 kernel; axioms propext, Quot.sound, Classical.choice only (audited per theorem on this run)",
+        "hand-written model lean/MwVerif/Model/Metabook.lean of loads/dumps/object_hook/MetabookObject.__init__/_json, tied to /repo by correspondence",
+        "translator: class defaults and the type-name mapping by introspection (Gen/MetabookTables.lean, regenerated on this run)",
+        "Python's json text codec, sha256 (collision freedom) and repr() are outside the model",
+        "harness/c13.py (generator, oracles)",
+    ]
+    chk.proof_coverage(res, trusted)
+    rng = chk.rng
+    g = G(rng, t)
+    kcode = lambda k: t["keys"].index(k)
+    vcode = lambda v: t["vals"].index(v)
+    drv = Driver("c13")
+    n = 20000 if tier == "thorough" else 3000
+    hist = Counter()
+    reqs, exps, texts = [], [], []
+    viol, diffs = [], []
+    for i in range(n):
+        v = g.collection() if i % 3 == 0 else g.any_value()
+        text = to_text(v, rng)
+        try:
+            out = reser(text)
+        except Exception as e:  # noqa: BLE001
+            hist["reser-exception:" + type(e).__name__] += 1
+            viol.append({"why": f"loads/dumps raised {type(e).__name__}: {e}", "text": text})
+            continue
+        hist["top:" + (type(v).__name__)] += 1
+        # fixed point
+        out2 = reser(out)
+        if out2 != out:
+            viol.append({"why": "re-serialising is not a fixed point", "text": text, "first": out, "second": out2})
+        reqs.append("norm " + to_tokens(v, kcode, vcode))
+        exps.append(to_tokens(json.loads(out), kcode, vcode))
+        texts.append(text)
+    for r, e, tx, o in zip(reqs, exps, texts, drv.ask(reqs)):
+        if o.split() != e.split():
+            diffs.append({"text": tx, "model": o, "impl": e})
+    viol += object_roundtrips(hist)
     # collection ids
     nid = 3000 if tier == "thorough" else 500
     idstats = Counter()
